@@ -290,12 +290,14 @@ bool BotanEDDSA::generateKeyPair(AsymmetricKeyPair** ppKeyPair, AsymmetricParame
 	}
 
 	ECParameters* params = (ECParameters*) parameters;
-	Botan::OID oid = BotanUtil::byteString2Oid(params->getEC());
 
 	// Generate the key-pair
 	Botan::Private_Key* eckp = NULL;
 	try
 	{
+		// Decoding parameters that are not a well-formed OID throws
+		Botan::OID oid = BotanUtil::byteString2Oid(params->getEC());
+
 		BotanRNG* rng = (BotanRNG*)BotanCryptoFactory::i()->getRNG();
 		if (oid == BotanUtil::x25519_oid)
 		{
